@@ -47,3 +47,49 @@ def run(only=None):
         prev[n] = s
     json.dump(prev, open(sp, 'w'), indent=1, sort_keys=True)
     return 0 if all(r[1] == 'DETECTED' for r in res) else 1
+
+
+def run_seeded(only=None):
+    """run the property's check against each confirmed seeded change (scratch copy, never /repo itself)"""
+    base = tempfile.mkdtemp(prefix='verif-seeded-', dir='/tmp')
+    res = []
+    try:
+        for d0 in sorted(glob.glob(os.path.join(VERIF, 'seeded', '*', 'patch.diff'))):
+            name = os.path.basename(os.path.dirname(d0))
+            pid = name.split('-')[0]
+            if only and pid not in only and name not in only:
+                continue
+            d = os.path.join(base, name)
+            subprocess.run(['rsync', '-a', '--exclude', 'build', '--exclude', '.git', '/repo/', d + '/'], check=True)
+            a = subprocess.run(['patch', '-p1', '-s', '-d', d, '-i', d0], capture_output=True, text=True)
+            if a.returncode != 0:
+                res.append((name, 'PATCH-FAILED', a.stdout[-200:]))
+                shutil.rmtree(d)
+                continue
+            env = dict(os.environ, VERIF_REPO=d, VERIF_SELFTEST='1')
+            manifest = json.load(open(os.path.join(VERIF, 'MANIFEST.json')))
+            claimed = [c['property_id'] for c in manifest['checks']]
+            hits = []
+            for q in ([pid] if pid in claimed else []) + [c for c in claimed if c != pid and os.environ.get('VERIF_SEEDED_ALL')]:
+                r = subprocess.run([os.path.join(VERIF, 'check'), q], capture_output=True, text=True, env=env)
+                if r.returncode == 1 and 'VIOLATION property=%s' % q in r.stdout:
+                    lines = [l for l in r.stdout.splitlines() if l.startswith('  ') and ': ' in l and not l.startswith('  rule') and not l.startswith('  analysed')]
+                    hits.append((q, lines[:3]))
+                elif r.returncode == 2:
+                    hits.append((q + '(exit2)', r.stdout.splitlines()[-1:]))
+            res.append((name, 'DETECTED by ' + ','.join(h[0] for h in hits) if hits else ('MISSED' if pid in claimed else 'NOT-CLAIMED'), hits))
+            shutil.rmtree(d)
+    finally:
+        shutil.rmtree(base, ignore_errors=True)
+    out = {}
+    for n, st, hits in res:
+        print('%-10s %s' % (n, st))
+        for h in hits if isinstance(hits, list) else []:
+            for l in h[1]:
+                print('      ' + l.strip()[:300])
+        out[n] = dict(status=st, reports=hits)
+    sp = os.path.join(VERIF, 'seeded', 'last_result.json')
+    prev = json.load(open(sp)) if os.path.exists(sp) else {}
+    prev.update(out)
+    json.dump(prev, open(sp, 'w'), indent=1, sort_keys=True)
+    return 0
